@@ -30,6 +30,16 @@ def root_of(fn, i):
                 if init is not None:
                     i = init
                     continue
+            if d.get('dk') == 'local' and ('__normal_iterator' in d.get('type', '') or '_iterator' in d.get('type', '')):
+                # an iterator local: it designates an element of the range it was obtained from
+                init = local_init(fn, d['id'])
+                if init is not None:
+                    i = init
+                    continue
+            if d.get('dk') == 'param' and d.get('id') not in [p['id'] for p in fn.params] and d.get('id') in lambda_params(fn) and lambda_params(fn)[d['id']][6]:
+                path.append('[]')
+                i = lambda_params(fn)[d['id']][0]
+                continue
             if d.get('dk') == 'param':
                 ids = [p['id'] for p in fn.params]
                 if d.get('id') in ids:
@@ -48,6 +58,15 @@ def root_of(fn, i):
         if k == 'ArraySubscriptExpr':
             path.append('[]')
             i = n['ch'][0]
+            continue
+        if k == 'CallExpr' and 'callee' in n and n['callee'].get('qname') in ('std::find_if', 'std::find', 'std::find_if_not', 'std::lower_bound', 'std::upper_bound',
+                                                                                'std::max_element', 'std::min_element', 'std::next', 'std::prev', 'std::advance') and fn.call_args(n):
+            # the result is an iterator into the range given by the first argument
+            i = fn.call_args(n)[0]
+            continue
+        if k in ('CXXMemberCallExpr', 'CXXOperatorCallExpr') and 'callee' in n and ('__normal_iterator' in n['callee'].get('classq', '') or
+                                                                                     '__normal_iterator' in n['callee'].get('qname', '')) and fn.call_obj(n) is not None:
+            i = fn.call_obj(n)
             continue
         if k in ('CXXMemberCallExpr', 'CXXOperatorCallExpr') and 'callee' in n:
             c = n['callee']
@@ -110,6 +129,46 @@ def range_vars(fn):
             if lv and 'range' in n:
                 c[lv['id']] = (n['range'], bool(lv.get('isref')), n['id'])
         fn._range_vars = c
+    return c
+
+
+STD_RANGE_ALGOS = ('std::for_each', 'std::find_if', 'std::find_if_not', 'std::any_of', 'std::all_of', 'std::none_of', 'std::count_if')
+
+
+def lambda_params(fn):
+    """{decl id of the parameter of a lambda passed to a std range algorithm over [X.begin(), X.end()):
+        (node of X, parameter name, call node, lambda node, body node)}"""
+    c = getattr(fn, '_lambda_params', None)
+    if c is not None:
+        return c
+    c = {}
+    own = {p['id'] for p in fn.params}
+    for n in fn.nodes:
+        if n['k'] != 'CallExpr' or n.get('callee', {}).get('qname') not in STD_RANGE_ALGOS:
+            continue
+        args = fn.call_args(n)
+        if len(args) != 3:
+            continue
+        b = fn.nodes[fn.strip(args[0], 'all')]
+        e = fn.nodes[fn.strip(args[1], 'all')]
+        lam = fn.nodes[fn.strip(args[2], 'all')]
+        if lam['k'] != 'LambdaExpr':
+            continue
+        if not (b['k'] == 'CXXMemberCallExpr' and b['callee']['name'] in ('begin', 'cbegin') and e['k'] == 'CXXMemberCallExpr' and e['callee']['name'] in ('end', 'cend')):
+            continue
+        if b.get('obj') is None or e.get('obj') is None:
+            continue
+        ids = {}
+        for x in fn.descendants(lam['id']):
+            m = fn.nodes[x]
+            if m['k'] == 'DeclRefExpr' and m['decl'].get('dk') == 'param' and m['decl']['id'] not in own:
+                ids[m['decl']['id']] = m['decl']
+        body = [x for x in lam['ch'] if fn.nodes[x]['k'] == 'CompoundStmt']
+        if len(ids) != 1 or len(body) != 1:
+            continue
+        (did, d), = ids.items()
+        c[did] = (b['obj'], d['name'], n['id'], lam['id'], body[0], e['obj'], bool(d.get('isref')))
+    fn._lambda_params = c
     return c
 
 
@@ -301,6 +360,12 @@ class Renderer:
             dk = d.get('dk')
             if dk == 'param':
                 idx = [p['id'] for p in fn.params].index(d['id']) if d['id'] in [p['id'] for p in fn.params] else -1
+                if idx < 0:
+                    lp = lambda_params(fn)
+                    if d['id'] in lp and self.render(lp[d['id']][0], depth + 1) == self.render(lp[d['id']][5], depth + 1):
+                        # the parameter of a lambda run over [X.begin(), X.end()): the current element of X
+                        el = '%s[local:%s]' % (self.render(lp[d['id']][0], depth + 1), d['name'])
+                        return el if lp[d['id']][6] else 'copy(%s)' % el
                 return 'arg%d' % idx
             if dk == 'local':
                 rv = range_vars(fn)
